@@ -10,6 +10,7 @@ import AsmjitVerif.Spec.Fault
 import AsmjitVerif.Model.FaultPool
 import AsmjitVerif.Model.FaultBuilder
 import AsmjitVerif.Model.FaultCompiler
+import AsmjitVerif.Model.FaultJit
 import Driver.Common
 namespace Driver.C15
 open AsmjitVerif AsmjitVerif.Fault Driver
@@ -75,6 +76,10 @@ structure DS where
   st : St := St.init
   pool : FaultPool.FPool := {}
   /-- monitor of `padd`: the last pool dump of the implementation and the constants added so far with their offsets -/
+  jit : JitAlloc.Alloc := JitAlloc.Alloc.init (JitAlloc.mkConfig 0 64 65536 0)
+  jres : FaultMore.Res := {}
+  jspans : List (Option (Nat × Nat)) := []
+  jlast : String := ""
   cst : FaultCompiler.CSt := {}
   csv : FaultCompiler.CView := {}
   bst : FaultBuilder.BSt := {}
@@ -351,6 +356,52 @@ def cMonStep (d : DS) (w : List String) (impl : String) : DS × String :=
     | _ => (d, "BAD bad-op")
   | _ => (d, "BAD unparsable answer")
 
+/-! ### JitAllocator lines -/
+
+def renderJit (a : JitAlloc.Alloc) : String :=
+  let st := a.stats
+  s!"blocks={st.blocks} allocs={st.allocs} used={st.used} reserved={st.reserved}"
+
+def jModelStep (d : DS) (w : List String) : DS × String :=
+  match w with
+  | ["reset", opts] =>
+    let a := JitAlloc.Alloc.init (JitAlloc.mkConfig (opts.toNat?.getD 0) 64 65536 0)
+    ({ d with jit := a, jres := {}, jspans := [] }, s!"ok n=0 | {renderJit a}")
+  | [mask, "alloc", size] =>
+    match parseHex? mask, size.toNat? with
+    | some m, some sz =>
+      let o := oracleOfMask m
+      let (o', a', res', r) := FaultJit.allocF o d.jit d.jres sz
+      let n := o.length - o'.length
+      match r with
+      | .ok sp => ({ d with jit := a', jres := res', jspans := d.jspans ++ [some (sp.blk, sp.off)] }, s!"ok n={n} | {renderJit a'}")
+      | .error e =>
+        let en := if m != 0 then "fail" else e.name
+        ({ d with jit := a', jres := res' }, s!"{en} n={n} | {renderJit a'}")
+    | _, _ => (d, "bad-op")
+  | [_, "release", i] =>
+    match i.toNat? with
+    | some i =>
+      match d.jspans.getD i none with
+      | some (blk, off) =>
+        let (a', r) := d.jit.release blk off
+        let en := match r with | .ok _ => "ok" | .error e => e.name
+        ({ d with jit := a', jspans := d.jspans.set i none }, s!"{en} n=0 | {renderJit a'}")
+      | none => (d, "precond")
+    | none => (d, "bad-op")
+  | _ => (d, "bad-op")
+
+/-- monitor of the JitAllocator lines: a failed `alloc` leaves the statistics as they were -/
+def jMonStep (d : DS) (w : List String) (impl : String) : DS × String :=
+  if impl == "precond" then (d, "good") else
+  match impl.splitOn " | " with
+  | [h, st] =>
+    let err := (words h).headD ""
+    if err.startsWith "fail" && st != d.jlast then (d, "BAD a failed alloc changed the allocator's statistics")
+    else if err != "ok" && !(err.startsWith "fail") && w.getD 1 "" == "alloc" && st != d.jlast then (d, "BAD a refused alloc changed the statistics")
+    else ({ d with jlast := st }, "good")
+  | _ => (d, "BAD unparsable answer")
+
 def stepLine (d : DS) (line : String) : DS × String :=
   match line.splitOn " => " with
   | [l, impl] =>
@@ -358,12 +409,14 @@ def stepLine (d : DS) (line : String) : DS × String :=
     | "m" :: rest => monStep d rest impl
     | "mb" :: rest => bMonStep d rest impl
     | "mc" :: rest => cMonStep d rest impl
+    | "mj" :: rest => jMonStep d rest impl
     | _ => (d, "bad-op")
   | _ =>
     match words line with
     | "o" :: rest => modelStep d rest
     | "b" :: rest => bModelStep d rest
     | "c" :: rest => cModelStep d rest
+    | "j" :: rest => jModelStep d rest
     | "run" :: rest => (d, monRun rest)
     | _ => (d, "bad-op")
 
